@@ -160,10 +160,15 @@ def run(rep: engine.Report, tier: str, seed: int):
     if not cases:
         raise engine.MachineryError("AlignCand emitted no cases")
     budget = 420 if tier == "quick" else len(cases)
-    sel = engine.stratified_sample(cases, _stratum, budget, seed)
+    big = [c for c in cases if c["cfg"]["T"] * c["cfg"]["K"] > 256]
+    small = [c for c in cases if c["cfg"]["T"] * c["cfg"]["K"] <= 256]
+    hi = [c for c in big if c["expect"]["flat"] >= 256]
+    big_quick = [next(c for c in hi if c["cfg"]["driver"] == "loader_multi"), next(c for c in hi if c["cfg"]["driver"] == "model")] if hi else []
+    sel = engine.stratified_sample(small, _stratum, budget, seed) + (big if tier != "quick" else big_quick)
     rep.exhaustive = len(sel) == len(cases)
     rep.rule = (
-        "TLC enumerates every (T<=3 templates, K<=4 rotations, planted j,k, shift tag, driver, model); "
+        "TLC enumerates every (T<=3 templates, K<=4 rotations, planted j,k, shift tag, driver, model) plus searches with 11 templates x 24 "
+        "rotations (264 candidates, flat index beyond one byte); "
         "each case plants template j rotated by searched rotation k (exact Rot24 voxel permutation) and "
         "displaced by an integer shift, and drives Model.align / loader.align / align_multi_templates / "
         "LoaderGroup.align_multi_templates; non-trivial = distinct (T,K,j,k,d,driver,model); "
